@@ -284,3 +284,41 @@ func derefStruct(t types.Type) (*types.Struct, bool) {
 	st, ok := types.Unalias(t).Underlying().(*types.Struct)
 	return st, ok
 }
+
+// headerSetLike: the instruction sets a header to exactly one value — h.Set(name, v), or the direct map form
+// h[name] = []string{v} on a value of type net/http.Header (equivalent when name is in canonical form).
+func headerSetLike(in ssa.Instruction) (name ssa.Value, val ssa.Value, ok bool) {
+	if call, isCall := calleeNamed(in, "net/http.Header.Set"); isCall {
+		return call.Args[1], call.Args[2], true
+	}
+	mu, isMU := in.(*ssa.MapUpdate)
+	if !isMU {
+		return nil, nil, false
+	}
+	n, isNamed := types.Unalias(mu.Map.Type()).(*types.Named)
+	if !isNamed || n.Obj().Pkg() == nil || n.Obj().Pkg().Path() != "net/http" || n.Obj().Name() != "Header" {
+		return nil, nil, false
+	}
+	sl, isSl := mu.Value.(*ssa.Slice)
+	if !isSl {
+		return nil, nil, false
+	}
+	al, isAl := sl.X.(*ssa.Alloc)
+	if !isAl {
+		return nil, nil, false
+	}
+	arr, isArr := al.Type().Underlying().(*types.Pointer).Elem().Underlying().(*types.Array)
+	if !isArr || arr.Len() != 1 {
+		return nil, nil, false
+	}
+	for _, r := range *al.Referrers() {
+		if ia, isIA := r.(*ssa.IndexAddr); isIA {
+			for _, r2 := range *ia.Referrers() {
+				if st, isSt := r2.(*ssa.Store); isSt {
+					return mu.Key, st.Val, true
+				}
+			}
+		}
+	}
+	return nil, nil, false
+}
